@@ -14,6 +14,16 @@ MUTANTS = [
     M('C03', 'macro path without the line', OPS, '        return f"{self.file_short_name}:l{self.line}"', '        return f"{self.file_short_name}"', 'C03.PREFIX'),
     M('C03', 'rep path without the index', PRE, "next_macro_path.format(i)\n", "next_macro_path.format('')\n", 'C03.PREFIX'),
     M('C03', 'parser keeps the namespace stack across files', PARSER, "    curr_namespace = []\n\n    lex_res", "    lex_res", 'C03.FILE-STATE'),
+    M('C03', 'wflip shares self although the destination changed (seed C03_1)', OPS,
+      "        if (\n            word_address is self.word_address\n            and flip_value is self.flip_value\n            and return_address is self.return_address\n        ):",
+      "        if flip_value is self.flip_value and return_address is self.return_address:", 'C03.SUBST-COMPLETE'),
+    M('C03', 'flip;jump shares self when only the flip is unchanged', OPS, "        if flip is self.flip and jump is self.jump:", "        if flip is self.flip:", 'C03.SUBST-COMPLETE'),
+    M('C03', 'rep count not substituted', OPS, "            self.repeat_times.eval_new(labels_dict),\n            self.iterator_name,", "            self.repeat_times,\n            self.iterator_name,", 'C03.SUBST-COMPLETE'),
+    M('C03', 'macro call arguments not substituted', OPS, "self.macro_name.name, [arg.eval_new(labels_dict) for arg in self.arguments], self.code_position", "self.macro_name.name, list(self.arguments), self.code_position", 'C03.SUBST-COMPLETE'),
+    M('C03', 'pad operand not substituted', OPS, "        return Pad(self.ops_alignment.eval_new(labels_dict), self.code_position)", "        return Pad(self.ops_alignment, self.code_position)", 'C03.SUBST-COMPLETE'),
+    M('C03', 'wflip builds the new op with the old return address', OPS, "        return WordFlip(word_address, flip_value, return_address, self.code_position)", "        return WordFlip(word_address, flip_value, self.return_address, self.code_position)", 'C03.SUBST-COMPLETE'),
+    M('C03', 'operator node shared when only the LAST argument is unchanged', EXPR, "            if evaluated_arg is not arg:\n                unchanged = False", "            unchanged = evaluated_arg is arg", 'C03.SUBST-COMPLETE'),
+    M('C03', 'EQ flip;jump guard operands swapped', OPS, "        if flip is self.flip and jump is self.jump:", "        if jump is self.jump and flip is self.flip:", None),
     M('C03', 'EQ rename/eval chained', PRE, "            op = op.rename_iterator(hygienic_iterator)\n            op = op.eval_new(params_dict)\n",
       "            op = op.rename_iterator(hygienic_iterator)\n            op = op.eval_new(params_dict)  # substitute params after the rename\n", None),
 ]
